@@ -353,6 +353,10 @@ func runC07(c *Ctx) {
 					keep = requestTainted(p, x.X) || requestTainted(p, x.Index)
 				case *ssa.Panic:
 					keep = false
+				case *ssa.MakeSlice:
+					// a size computed from a request field: len <= cap, and no wrap-around in the size arithmetic
+					// (how large the allocation may be is the option's business and is not judged here)
+					keep = (o.Kind == "make" || o.Kind == "wrap") && (requestTainted(p, x.Len) || requestTainted(p, x.Cap))
 				}
 				if fnName(fn) == "(*packetManager).maybeSendPackets" || fnName(fn) == "(*allocator).GetPage" {
 					if o.Kind == "slice" || o.Kind == "index" {
